@@ -73,6 +73,17 @@ def check(case):
     s2i = M.get_species2index()
     order = sorted(names, key=lambda s: s2i[s])
     x = np.array([case["state"][s] for s in order], dtype=float)
+    if case.get("warmup"):
+        # the same model object was analysed before, at other parameter values: only the current values may matter
+        res.label("model_analysed_before_at_other_parameter_values")
+        orig = {p: float(v) for p, v in M.get_parameter_dictionary().items()}
+        with specmod.quiet():
+            M.set_params({p: 1.7 * v + 0.3 for p, v in orig.items()})
+            if case["warmup"] == "jacobian":
+                py_get_jacobian(M, x, method=method)
+            else:
+                py_get_sensitivity_to_parameter(M, x, sorted(sp["params"])[0], method=method)
+            M.set_params(orig)
     before = dict(M.get_parameter_dictionary())
     mpstate = {s: _mp.mpf(case["state"][s]) for s in names}
     mpparams = {p: _mp.mpf(v) for p, v in sp["params"].items()}
@@ -207,6 +218,7 @@ def cases(draw):
     if what == "sensitivity":
         used = sorted(sp["params"])
         case["param"] = draw(st.sampled_from(used))
+    case["warmup"] = draw(st.sampled_from([None, None, "jacobian", "sensitivity"])) if sp["params"] else None
     return case
 
 
